@@ -188,10 +188,17 @@ class Resolver:
                 for n in walk_no_nested(fi.node):
                     if isinstance(n, ast.Assign) and len(n.targets) == 1:
                         t = n.targets[0]
-                        if isinstance(t, ast.Attribute) and isinstance(t.value, ast.Name) and t.value.id == "self" and isinstance(n.value, ast.Call) and isinstance(n.value.func, ast.Name):
-                            r = self.lookup_name(c.module, fi.node, n.value.func.id)
-                            if r and r[0] == "class":
-                                out.setdefault(t.attr, r[1])  # type: ignore[arg-type]
+                        if isinstance(t, ast.Attribute) and isinstance(t.value, ast.Name) and t.value.id == "self":
+                            cands = [n.value] + (list(n.value.values) if isinstance(n.value, ast.BoolOp) else []) + ([n.value.body, n.value.orelse] if isinstance(n.value, ast.IfExp) else [])
+                            for v in cands:
+                                if isinstance(v, ast.Call) and isinstance(v.func, ast.Name):
+                                    r = self.lookup_name(c.module, fi.node, v.func.id)
+                                    if r and r[0] == "class":
+                                        out.setdefault(t.attr, r[1])  # type: ignore[arg-type]
+                                elif isinstance(v, ast.Name):
+                                    pt = self.local_types(fi).get(v.id)
+                                    if pt is not None:
+                                        out.setdefault(t.attr, pt)
                     elif isinstance(n, ast.AnnAssign) and isinstance(n.target, ast.Attribute) and isinstance(n.target.value, ast.Name) and n.target.value.id == "self":
                         cc = self.class_of_annotation(c.module, fi.node, n.annotation)
                         if cc:
